@@ -37,4 +37,12 @@ theorem shape_ExitStatus : Generated.Shapes.mg_ExitStatus = Bridge.Expected.mg_E
 theorem shape_Fatal : Generated.Shapes.mg_Fatal = Bridge.Expected.mg_Fatal := rfl
 theorem shape_funcName : Generated.Shapes.mg_funcName = Bridge.Expected.mg_funcName := rfl
 theorem shape_displayName : Generated.Shapes.mg_displayName = Bridge.Expected.mg_displayName := rfl
+/- what a dependency *is* to the registry: mg.F and the three methods of its value -/
+theorem shape_F : Generated.Shapes.mg_F = Bridge.Expected.mg_F := rfl
+theorem shape_fn_Name : Generated.Shapes.mg_fn_Name = Bridge.Expected.mg_fn_Name := rfl
+theorem shape_fn_ID : Generated.Shapes.mg_fn_ID = Bridge.Expected.mg_fn_ID := rfl
+theorem shape_fn_Run : Generated.Shapes.mg_fn_Run = Bridge.Expected.mg_fn_Run := rfl
+theorem shape_Fatalf : Generated.Shapes.mg_Fatalf = Bridge.Expected.mg_Fatalf := rfl
+theorem shape_fatalErr_ExitStatus : Generated.Shapes.mg_fatalErr_ExitStatus = Bridge.Expected.mg_fatalErr_ExitStatus := rfl
+theorem shape_Verbose : Generated.Shapes.mg_Verbose = Bridge.Expected.mg_Verbose := rfl
 end MageModel.Bridge.Deps
